@@ -103,7 +103,7 @@ class Ctx:
               base_exc=False, max_depth=3, bindings=None, may_raise=None) -> List[Path]:
         if unroll is None:
             unroll = 3 if self.thorough else 2
-        key = (fn.key, str(inline), exc_edges, unroll, base_exc, max_depth, may_raise)
+        key = (fn.key, fn.lineno, str(inline), exc_edges, unroll, base_exc, max_depth, may_raise)
         if key in self._path_cache and bindings is None:
             return self._path_cache[key]
         pred = None
